@@ -65,6 +65,7 @@ class Engine:
         self.merge_applied = set()
         self.nmerge_bind = 0
         self.decided = {}
+        self.bind_memo = {}
         self.iv = {}
         self.bind_log = []
 
@@ -88,6 +89,7 @@ class Engine:
         self.bind_log = []
         self.nmerge = 0
         self.decided = {}
+        self.bind_memo = {}
         self.lits = None
         self.in_merge = 0
         self.no_fork = 0
@@ -127,6 +129,9 @@ class Engine:
         expr = z3.simplify(expr)
         if z3.is_bv_value(expr) or z3.is_const(expr):
             return expr
+        memo = self.bind_memo.get(expr.get_id())
+        if memo is not None:
+            return memo[0]          # the same term was bound before on this path: reuse its variable
         self.nbind += 1
         v = z3.BitVec(f"_t{self.nbind}", W)
         d = v == expr
@@ -135,6 +140,8 @@ class Engine:
         self.model = None
         if lo is not None:
             self.iv[v.get_id()] = (lo, hi, v)
+        if not self.in_merge:
+            self.bind_memo[expr.get_id()] = (v, expr)
         return v
 
     def interval(self, z, default):
